@@ -290,6 +290,25 @@ def _type_list_cases():
                    "payload": {"doc": gen.base_doc(copy.deepcopy(comps), paths=copy.deepcopy(paths)), "options": {}, "meta": "none", "key": f"type-list/{lname}"}}
 
 
+SHADOW_NAMES = ["Response", "Union", "Optional", "Any", "Client", "AuthenticatedClient", "Unset", "File", "HTTPStatus", "Type", "TypeVar", "Mapping",
+                "Datetime", "BytesIO", "UUID", "Generic", "T", "Literal", "Enum", "Dict", "List", "Cast", "Errors", "Types", "FileTypes", "Attrs", "Define", "Field"]
+
+
+def _shadow_cases():
+    """(j) component names equal to a name the generated modules import for their own use (typing, httpx glue, types.py), as a model and
+    as an enum, used as body + response of an operation and as a property of another model."""
+    R = "#/components/schemas/"
+    for nm in SHADOW_NAMES:
+        for kind, sch in (("model", {"type": "object", "properties": {"a": {"type": "string"}}}), ("enum", {"type": "string", "enum": ["x", "y"]})):
+            comps = {nm: sch, "Holder": {"type": "object", "properties": {"inner": {"$ref": R + nm}, "many": {"type": "array", "items": {"$ref": R + nm}}}}}
+            paths = {"/r": {"post": {"operationId": "postR", "requestBody": {"required": True, "content": {"application/json": {"schema": {"$ref": R + nm}}}},
+                                     "parameters": ([{"name": "q", "in": "query", "schema": {"$ref": R + nm}}] if kind == "enum" else []),
+                                     "responses": {"200": {"description": "d", "content": {"application/json": {"schema": {"$ref": R + nm}}}}}}},
+                     "/h": {"get": {"operationId": "getH", "responses": {"200": {"description": "d", "content": {"application/json": {"schema": {"$ref": R + "Holder"}}}}}}}}
+            yield {"labels": [f"shadow-name={nm}", f"kind={kind}"],
+                   "payload": {"doc": gen.base_doc(comps, paths=paths), "options": {}, "meta": "none", "key": f"shadow/{nm}/{kind}"}}
+
+
 def _has_cycle(n, edges):
     adj = {i: {j for a, j, _k in edges if a == i} for i in range(n)}
     def reach(a, b, seen):
@@ -307,6 +326,7 @@ def cases(tier):
     yield from _regenerations(tier)
     yield from _two_round()
     yield from _type_list_cases()
+    yield from _shadow_cases()
     bound = 2 if tier == "quick" else 3
     limit = 30000 if tier == "quick" else 400000
     for labels, payload, _d in explore(_build, bound=bound, limit=limit):
